@@ -7,9 +7,14 @@
      - the source iterator was pulled exactly |consumed| + 1 times (iterator model in
        LR/Driver.v: one peek per loop iteration, next() only after a peek);
      - no sentence starts with consumed ++ [that token]: the reported index is not too late.
-   NOT proved: C03_viable_prefix — `consumed` itself is a prefix of some sentence (the reported
-   index is not too early; needs every nonterminal productive, and the valid-item lemma).  The
-   check decides it per input with an Earley recogniser / a brute-force canonical LR(1) parser. *)
+   AND, for every grammar the generator accepts in which every right-hand side derives some token
+   sequence (the property's "every nonterminal derives at least one token sequence"):
+     - `consumed` itself is a prefix of some sentence: the reported index is not too early
+       (C03_all_reject_exact; LR/Viable.v: every item of a state is reached from the state's
+       kernel by finitely many closure steps, so what is on the stack can always be completed).
+   NOT proved: for grammars with unproductive nonterminals, that the index is the one at which a
+   canonical LR(1) parser stops.  The check decides it per input with an Earley recogniser / a
+   brute-force canonical LR(1) parser. *)
 From Coq Require Import List Arith.
 From Kiki Require Import Base.Ord Base.Chars Data LR.Driver LR.Grammar LR.Inv LR.Complete LR.ErrPos
   LR.Validate LR.ValidateProofs.
@@ -63,8 +68,22 @@ Section C03_all_grammars.
       pulls kind pt fuel w = S (length consumed) /\
       (forall x r z, rest = x :: r -> ~ sentence kind pt (consumed ++ x :: z)).
   Proof. exact (emitted_parser_reject_position kind ho digest src out text pt Hho Hgen Hpt). Qed.
+
+  Theorem C03_all_reject_exact :
+    (forall r ru, nth_error (pt_rules pt) r = Some ru -> exists ts, wfs kind pt (pr_rhs ru) ts) ->
+    (exists t, wf kind pt (PN (pt_start_nt pt)) t) ->
+    forall fuel w tok,
+      Forall (fun p => kind p < pt_nterm pt) w ->
+      parse kind pt fuel w = OReject tok ->
+      exists consumed rest,
+        w = consumed ++ rest /\ tok = hd_error rest /\
+        pulls kind pt fuel w = S (length consumed) /\
+        (forall x r z, rest = x :: r -> ~ sentence kind pt (consumed ++ x :: z)) /\
+        (exists z, sentence kind pt (consumed ++ z)).
+  Proof. exact (emitted_parser_reject_exact kind ho digest src out text pt Hho Hgen Hpt). Qed.
 End C03_all_grammars.
 
 Print Assumptions C03_reject_position.
 Print Assumptions C03_returns_the_unconsumed_head.
 Print Assumptions C03_all_reject_position.
+Print Assumptions C03_all_reject_exact.
